@@ -1,9 +1,12 @@
 package main
 
 import (
+	"fmt"
+	"go/ast"
 	"go/constant"
 	"go/token"
 	"go/types"
+	"strings"
 
 	"golang.org/x/tools/go/ssa"
 )
@@ -157,4 +160,82 @@ func lookupConstInFn(p *Prog, fn *ssa.Function, name string) (constant.Value, bo
 		}
 	}
 	return nil, false
+}
+
+// trimChainNonEmpty discharges x[0] where x = strings.TrimLeft(z[i:], C), z =
+// strings.Trim/TrimRight(_, C0), every byte of C is in C0 and i is the result of
+// a strings.Index* call on z: the slice did not panic, so 0 <= i < len(z); z is
+// then non-empty and its last byte is outside C0, hence outside C, so TrimLeft
+// leaves at least that byte. Any other producer (TrimSpace, another cutset) is
+// not proven.
+func trimChainNonEmpty(p *Prog, n ast.Node) (bool, string) {
+	ix, ok := n.(*ast.IndexExpr)
+	if !ok {
+		return false, "not an index expression"
+	}
+	for _, f := range p.Funcs {
+		if f.Syntax() == nil || f.Syntax().Pos() > ix.Pos() || ix.End() > f.Syntax().End() {
+			continue
+		}
+		for _, b := range f.Blocks {
+			for _, in := range b.Instrs {
+				var x, idx ssa.Value
+				switch lk := in.(type) {
+				case *ssa.Lookup:
+					if lk.Pos() == ix.Lbrack {
+						x, idx = lk.X, lk.Index
+					}
+				case *ssa.Index:
+					if lk.Pos() == ix.Lbrack {
+						x, idx = lk.X, lk.Index
+					}
+				}
+				if x == nil {
+					continue
+				}
+				if k, ok := idx.(*ssa.Const); !ok || k.Value == nil || k.Int64() != 0 {
+					return false, "index is not the constant 0"
+				}
+				tl, ok := x.(*ssa.Call)
+				if !ok || staticCalleeName(tl) != "strings.TrimLeft" {
+					return false, "the indexed string is not the result of strings.TrimLeft"
+				}
+				c, ok := ssaConstString(tl.Call.Args[1])
+				if !ok {
+					return false, "TrimLeft cutset is not a constant"
+				}
+				sl, ok := tl.Call.Args[0].(*ssa.Slice)
+				if !ok || sl.High != nil || sl.Low == nil {
+					return false, "TrimLeft is not applied to a suffix z[i:]"
+				}
+				z, ok := sl.X.(*ssa.Call)
+				if !ok || (staticCalleeName(z) != "strings.Trim" && staticCalleeName(z) != "strings.TrimRight") {
+					return false, "the suffix is not taken from the result of strings.Trim/TrimRight"
+				}
+				c0, ok := ssaConstString(z.Call.Args[1])
+				if !ok {
+					return false, "Trim cutset is not a constant"
+				}
+				for _, ch := range c {
+					if !strings.ContainsRune(c0, ch) {
+						return false, fmt.Sprintf("TrimLeft removes %q, which the outer Trim does not: the remainder can be trimmed to nothing", string(ch))
+					}
+				}
+				ic, ok := sl.Low.(*ssa.Call)
+				if !ok || !strings.HasPrefix(staticCalleeName(ic), "strings.Index") || len(ic.Call.Args) == 0 || ic.Call.Args[0] != ssa.Value(z) {
+					return false, "the suffix does not start at an index found in the same string"
+				}
+				return true, fmt.Sprintf("TrimLeft(z[i:], %q) with z = %s(_, %q) and i = %s(z, _)", c, staticCalleeName(z), c0, staticCalleeName(ic))
+			}
+		}
+	}
+	return false, "no string index instruction found at this position"
+}
+
+func ssaConstString(v ssa.Value) (string, bool) {
+	k, ok := v.(*ssa.Const)
+	if !ok || k.Value == nil || k.Value.Kind() != constant.String {
+		return "", false
+	}
+	return constant.StringVal(k.Value), true
 }
